@@ -109,7 +109,7 @@ class Realistic(Family):
     nontrivial_rule = 'at least two elements inserted'
 
     def cases(self, shard, tier):
-        for n, rate in ((1, 0.5), (2, 0.1), (3, 0.01), (10, 0.001), (50, 0.0001)):
+        for n, rate in ((1, 0.5), (2, 0.1), (3, 0.01), (10, 0.001), (50, 0.0001), (1000, 0.99), (400, 0.9), (3, 0.9), (30, 0.01), (31, 0.01)):
             for tweak in (0, 5, 2 ** 32 - 1):
                 for k in range(0, len(ELEMS) + 1):
                     yield (n, rate, tweak, k)
@@ -178,7 +178,7 @@ class Histories(BFSFamily):
     nontrivial_rule = 'distinct canonical filter states (vData, nHashFuncs, nTweak, nFlags)'
     # initial data patterns: a filter can arrive from the wire with any data ("start from non-initial states too"):
     # 0 = all zero, 1 = first byte ff, 2 = last byte ff, 3 = all ff, 4 = first byte 7f
-    CONFIGS = [(nb, nh, tw, init) for nb in (1, 2, 5) for nh in (1, 2, 3) for tw in (0, 0xffffffff, 0x80000000)
+    CONFIGS = [(nb, nh, tw, init) for nb in (1, 2, 5) for nh in (0, 1, 2, 3) for tw in (0, 0xffffffff, 0x80000000)
                for init in ((0, 3, 4) if nb == 1 else (0, 1, 2, 3, 4))]
 
     def depth(self, tier):
